@@ -38,9 +38,13 @@ MANIFEST = {
             "default-flag handling and LYD_MERGE_DEFAULTS / WITH_FLAGS, the walk up of lyd_np_cont_dflt_del/_set, recursion without "
             "keys, insertion at the canonical position) on the shared Tree.v model: the merged tree is canonical again "
             "(C14_merge_canon) and keeps identities unique (C14_merge_uniq); every explicit source node addressed by its instance "
-            "path is in the result with the source's value (C14_merge_contains_source_partial); target nodes whose path the source "
-            "does not contain are unchanged (C14_merge_keeps_rest_partial); merging the same source again changes nothing "
-            "(C14_merge_idempotent_partial); merge into the empty tree yields the source, duplicate-instance lists included (C14_merge_empty). Tie: the "
+            "path is in the result with the source's value (C14_merge_contains_source_by_path) and, at full strength and by position "
+            "among equal instances, every source subtree is absorbed by the result (C14_merge_contains_source); target nodes whose path the source "
+            "does not contain are unchanged (C14_merge_keeps_rest); merging the same source again changes nothing, "
+            "duplicate-instance lists included (C14_merge_idempotent); merge into the empty tree yields the source, duplicate-instance lists included (C14_merge_empty); "
+            "level-wise: unmatched children - also instances of duplicate-instance lists - are kept and leaf-list instances are "
+            "contained by value (C14_merge_level, C14_merge_keeps_unmatched_child/_top, C14_merge_keeps_dup_below/_top - a duplicate instance that a source instance equals "
+            "stays fully equal -, C14_merge_contains_leaflist_below/_top, C14_merge_copies_new); no _partial theorem is left. Tie: the "
             "extracted model and lyd_merge_siblings run on the same dumped operands with all 8 option combinations (destructive "
             "and non-destructive against the ONE model function, so both give the same result), the source dump before/after, a "
             "second merge and the invariant checker; dumps must agree byte for byte incl. default flags and metadata "
@@ -73,10 +77,26 @@ MANIFEST = {
             "the three printers (text equal to the original's; LYB bytes equal when flags were copied), parsed back and compared "
             "with lyd_compare_siblings, lyd_validate_all on the copy (must succeed and change nothing), compared with the original.",
     "note": "PARTIAL. (1) Independence of a duplicate / of the merge source is a heap property (no shared mutable state): the value "
-            "model cannot express it, Merge.dup is the identity; only the sanitizer-backed oracle looks at it. (2) The three "
-            "_partial theorems do not speak about instances of duplicate-instance lists (key-less lists, config false leaf-lists): "
-            "they have no instance path and are matched by position through the lyd_dup_inst cache; the model implements that "
-            "(and T2 exercises it), the theorems exclude it. (3) lyd_dup_* options (parents, no-meta, flags, to another context, parent "
+            "model cannot express it, Merge.dup is the identity; only the sanitizer-backed oracle looks at it. (2) No "
+            "_partial theorem is left in Properties_C14_merge.v (Canon / UniqIds / schema_okb are the domain of valid trees, checked "
+            "on every operand by T2). C14_merge_contains_source is FULL, in positional form: the k-th source node of a class (class = "
+            "instance identity, full equality for duplicate-instance lists) meets the k-th node of that class in the result, which "
+            "has absorbed it (MergeP.AbsN; C14_absorbed_children / _term_value / _dup_equal unfold that: source values of explicit "
+            "terms, full equality of duplicate instances, recursively) - multiplicities, key-less list instances and what is "
+            "below them included; C14_merge_contains_source_by_path is the same by instance path for the nodes that have one, "
+            "with C14_merge_contains_leaflist_below / _top and C14_merge_copies_new. C14_merge_keeps_rest (target nodes with an "
+            "instance path the source lacks are unchanged) together with C14_merge_keeps_unmatched_child / _top (any child of an "
+            "addressable target node, or top-level node, that no source sibling matches stays unchanged) and "
+            "C14_merge_keeps_dup_below / _top (an instance of a duplicate-instance list that a source instance equals stays "
+            "fully equal, only default flags may change) covers every target node (case analysis in the header of the "
+            "Properties file); the last two rest on dp_stmt and the function-level level lemma level_fn. "
+            "C14_merge_idempotent is FULL now (was _partial: the hypothesis that no source node is an instance of a "
+            "duplicate-instance list is removed): a positional absorbed relation (MergeP.AbsN: the k-th equal source instance is "
+            "absorbed by the k-th equal instance of the result) and cache invariants (E1 / E2 / CI2) are carried through both "
+            "merges, together with the lemma that updating an instance with a fully equal source instance changes only default "
+            "flags (dp_stmt), so instances of key-less lists stay in their class while their siblings are merged; nothing is "
+            "assumed about the target's identities.  C14_merge_level gives the level-wise structure (children of the merged "
+            "node = MFold MStep of the source children over the target children) these rest on. (3) lyd_dup_* options (parents, no-meta, flags, to another context, parent "
             "argument) are not in the Coq model; they are decided by the oracle dupmatrix against an independent expectation. "
             "(4) Not in Tree.v: LYD_NEW, opaque nodes, anydata, several modules, hashes / lyds trees (C04); merge on these is decided "
             "by mergekinds against a Python reference (which leaves the default mark of non-presence containers and the order inside "
